@@ -175,10 +175,17 @@ impl Manifest {
             serde_json::to_writer(&mut json, entry)?;
         }
         serde_json::to_writer(&mut json, &ManifestOperation::End)?;
+        #[cfg(feature = "verif")]
+        crate::verif::persist("manifest.append.pre", "manifest");
         file.write_all(&json).await?;
+        #[cfg(feature = "verif")]
+        crate::verif::persist("manifest.append.post", "manifest");
         if self.enable_fsync {
             file.sync_data().await?;
         }
+        #[cfg(feature = "verif")]
+        crate::verif::persist("manifest.fsync.post", "manifest");
+
         Ok(())
     }
 }
@@ -246,6 +253,8 @@ impl SecondaryStorage {
         self.version
             .commit_changes(vec![EpochOp::CreateTable(entry.clone())])
             .await?;
+        #[cfg(feature = "verif")]
+        crate::verif::gate("ddl.create.after_persist").await;
 
         // then apply to catalog
         self.apply_create_table(&entry)?;
@@ -282,6 +291,8 @@ impl SecondaryStorage {
 
         // contrary to create table, we first modify the catalog
         self.apply_drop_table(&entry)?;
+        #[cfg(feature = "verif")]
+        crate::verif::gate("ddl.drop.after_apply").await;
 
         changeset.push(EpochOp::DropTable(entry));
 
